@@ -284,7 +284,9 @@ def _names_read(nodes) -> set[str]:
     live, killed = set(), set()
 
     def loads(node):
-        return {n.id for n in ast.walk(node) if isinstance(n, ast.Name) and isinstance(n.ctx, ast.Load)}
+        # names bound by a comprehension inside the expression are local to it
+        bound = {t.id for n in ast.walk(node) if isinstance(n, (ast.ListComp, ast.SetComp, ast.DictComp, ast.GeneratorExp)) for g in n.generators for t in ast.walk(g.target) if isinstance(t, ast.Name)}
+        return {n.id for n in ast.walk(node) if isinstance(n, ast.Name) and isinstance(n.ctx, ast.Load)} - bound
 
     for st in nodes:
         if isinstance(st, (ast.For, ast.AsyncFor)):
@@ -420,6 +422,11 @@ class _Inliner:
                     body = _inlined_body(h, call, live - tg)
                     if body is not None:
                         last = body[-1]
+                        # the helper returns one of its own locals: call it what the caller calls the result
+                        if isinstance(st, ast.Assign) and len(st.targets) == 1 and isinstance(st.targets[0], ast.Name) and isinstance(last.value, ast.Name) and last.value.id in (_stores(body[:-1]) - {a_.arg for a_ in h.args.args + h.args.kwonlyargs}) and st.targets[0].id not in {n_.id for x_ in body[:-1] for n_ in ast.walk(x_) if isinstance(n_, ast.Name)}:
+                            ren = _Subst({last.value.id: ast.Name(id=st.targets[0].id, ctx=ast.Load())})
+                            body = [ren.visit(x_) for x_ in body[:-1]] + [ast.Return(value=ast.Name(id=st.targets[0].id, ctx=ast.Load()))]
+                            last = body[-1]
                         new = copy.copy(st)
                         new.value = last.value
                         self.count += 1
